@@ -47,7 +47,7 @@ func bigBatch(r *rand.Rand, id int, seed int64, n int) *Batch {
 		service = cast.Ed("service")
 	}
 	cw := &World{ID: id, Kind: "bigbatch", Cast: cast, Can: "store/add", Ctx: baseCtx(service)}
-	b := &Batch{ID: id, W: cw, Handlers: map[string]string{"store/add": "ok", "store/list": "fail", "upload/add": []string{"okfx", "okjoin", "okfxjoin"}[id%3], "space/blob/add": "badout"}}
+	b := &Batch{ID: id, W: cw, Handlers: map[string]string{"store/add": "ok", "store/list": "fail", "upload/add": []string{"okfx", "okjoin", "okfxjoin", "okfxinv"}[id%4], "space/blob/add": "badout"}}
 	// one unrelated token so that the world is never empty
 	far := 4000000000
 	cw.Specs = append(cw.Specs, &TokSpec{Name: "anchor", Issuer: cast.Ed("p0"), Audience: service, Exp: &far, Nonce: "anchor",
